@@ -6,11 +6,16 @@
      cu <scid> <dir> <disabled> <ts> <cltv> <min> <max> <base> <prop> <chainOk> <dontFwd> <verify> <signer>
      na <node> <ts> <payload> <verify> <sigOk>
      fc <scid> <now>      fn <id> <now>      pr <t>
-     dump                 dumpp   (persisted part only: no tombstones) -/
+     rgs <latestSeen> <now | -> <dCltv> <dMin> <dBase> <dProp> <dMax>
+         N <k> (<node> <flag>)^k  A <k> (<scid> <cap | -> <n1> <n2>)^k  U <k> (<scid> <flags> <cltv> <min> <base> <prop> <max>)^k
+                          a rapid-gossip-sync snapshot (RapidGossipSync::update_network_graph_no_std)
+     dump                 dumpp   (persisted part only: no tombstones)
+   The model run is `Gossip.Impl` (every decision = generated code), see Model/Gossip.lean. -/
 import LdkModel.Driver.Util
 import LdkModel.Model.Gossip
 namespace Ldk.Driver
 open Ldk Ldk.Gossip
+open Ldk.Gossip.Impl (RgsNode RgsAnn RgsUpd)
 
 def c17ShowOutcome : Outcome → String
   | .accept => "ok"
@@ -63,6 +68,36 @@ def c17Parse : List String → Option Op
   | ["pr", t] => some (.pruneAt (nat! t))
   | _ => none
 
+def c17Nodes : Nat → List String → Option (List RgsNode × List String)
+  | 0, r => some ([], r)
+  | k + 1, n :: f :: r => (c17Nodes k r).map (fun p => (⟨nat! n, nat! f⟩ :: p.1, p.2))
+  | _, _ => none
+def c17Anns : Nat → List String → Option (List RgsAnn × List String)
+  | 0, r => some ([], r)
+  | k + 1, s :: c :: a :: b :: r =>
+    (c17Anns k r).map (fun p => (⟨nat! s, if c == "-" then none else some (nat! c), nat! a, nat! b⟩ :: p.1, p.2))
+  | _, _ => none
+def c17Upds : Nat → List String → Option (List RgsUpd × List String)
+  | 0, r => some ([], r)
+  | k + 1, s :: f :: c :: mn :: fb :: fp :: mx :: r =>
+    (c17Upds k r).map (fun p => (⟨nat! s, nat! f, nat! c, nat! mn, nat! fb, nat! fp, nat! mx⟩ :: p.1, p.2))
+  | _, _ => none
+
+def c17Snapshot : List String → Option Impl.Snapshot
+  | latest :: now :: dc :: dm :: db :: dp :: dx :: "N" :: k :: r =>
+    match c17Nodes (nat! k) r with
+    | some (ns, "A" :: k2 :: r2) =>
+      match c17Anns (nat! k2) r2 with
+      | some (as, "U" :: k3 :: r3) =>
+        match c17Upds (nat! k3) r3 with
+        | some (us, []) =>
+          some { latestSeen := nat! latest, now := if now == "-" then none else some (nat! now), nodes := ns, anns := as,
+                 dCltv := nat! dc, dMin := nat! dm, dBase := nat! db, dProp := nat! dp, dMax := nat! dx, upds := us }
+        | _ => none
+      | _ => none
+    | _ => none
+  | _ => none
+
 def c17 : Drv where
   σ := Graph
   init := Graph.empty
@@ -71,9 +106,13 @@ def c17 : Drv where
     | ["reset"] => (Graph.empty, "-")
     | ["dump"] => (g, c17Dump g true)
     | ["dumpp"] => (g, c17Dump g false)
+    | "rgs" :: rest =>
+      match c17Snapshot rest with
+      | some s => let r := Impl.applySnapshot g s; (r.1, c17ShowOutcome r.2)
+      | none => (g, "bad-op")
     | _ =>
       match c17Parse ws with
-      | some op => let r := Gossip.step g op; (r.1, c17ShowOutcome r.2)
+      | some op => let r := Impl.step g op; (r.1, c17ShowOutcome r.2)
       | none => (g, "bad-op")
 
 end Ldk.Driver
